@@ -103,6 +103,18 @@ func c16fields() []c16field {
 		{name: "MC", typ: reflect.TypeOf(""), tag: `yaml:"softFail,omitempty"`, key: "softFail",
 			vals: []c16val{{`"m1"`, "m1", true}, {`"m2"`, "m2", true}},
 			zero: "", sentinel: func() reflect.Value { return rv("SENT") }, sentNorm: "SENT"},
+		// other instantiations of the generic ordered map: struct values and slice values (entries are independent of each other)
+		{name: "OMN", typ: reflect.TypeOf(&ordered.Map[string, c16nested]{}), tag: `yaml:"omn"`, key: "omn", nillable: true, merges: true,
+			vals: []c16val{{`{"k1":{"x":"a"},"k2":{"y":2},"k3":{}}`, map[string]any{"k1": nestedNorm("a", 0), "k2": nestedNorm("", 2), "k3": nestedNorm("", 0)}, false},
+				{`{"k1":{"x":"a","y":1}}`, map[string]any{"k1": nestedNorm("a", 1)}, false}},
+			zero: c16nilPtr, sentinel: func() reflect.Value {
+				return rv(ordered.MapFromItems(ordered.Tuple[string, c16nested]{Key: "sent", Value: c16nested{"SX", -9}}))
+			}, sentNorm: map[string]any{"sent": nestedNorm("SX", -9)}},
+		{name: "OMS", typ: reflect.TypeOf(&ordered.Map[string, []string]{}), tag: `yaml:"oms"`, key: "oms", nillable: true, merges: true,
+			vals: []c16val{{`{"a":["x"],"b":["y","z"],"c":[]}`, map[string]any{"a": []any{"x"}, "b": []any{"y", "z"}, "c": []any{}}, false}},
+			zero: c16nilPtr, sentinel: func() reflect.Value {
+				return rv(ordered.MapFromItems(ordered.Tuple[string, []string]{Key: "sent", Value: []string{"s"}}))
+			}, sentNorm: map[string]any{"sent": []any{"s"}}},
 		{name: "Dash", typ: reflect.TypeOf(""), tag: `yaml:"-"`, key: "dash", dash: true,
 			vals: []c16val{{`"d1"`, "d1", true}, {`[1]`, []any{1}, true}},
 			zero: "", sentinel: func() reflect.Value { return rv("SENT") }, sentNorm: "SENT"},
@@ -167,6 +179,18 @@ func c16norm(v reflect.Value) any {
 	case reflect.Pointer:
 		if v.IsNil() {
 			return c16nilPtr
+		}
+		if tm := v.MethodByName("ToMap"); tm.IsValid() && strings.HasPrefix(v.Type().Elem().Name(), "Map[") && v.Type().Elem().PkgPath() == "github.com/buildkite/go-pipeline/ordered" {
+			if _, isSA := v.Interface().(*ordered.MapSA); !isSA {
+				// another instantiation of the generic ordered map (struct / slice values)
+				res := tm.Call(nil)[0]
+				out := map[string]any{}
+				it := res.MapRange()
+				for it.Next() {
+					out[it.Key().String()] = c16norm(it.Value())
+				}
+				return out
+			}
 		}
 		if om, ok := v.Interface().(*ordered.MapSA); ok {
 			out := map[string]any{}
@@ -704,6 +728,65 @@ func c16run(w *report.W) {
 			}
 		}
 	}
+	// wide documents: N unknown keys in front of (or behind) the keys the type knows, N crossing 8, 64 and 128; each
+	// one- and two-field type with every inline kind. Unknown keys go to the inline part, known keys to their fields only.
+	if c16extraVals["f000"] == nil {
+		for i := 0; i < 130; i++ {
+			c16extraVals[fmt.Sprintf("f%03d", i)] = []c16val{{`1`, 1, true}}
+		}
+	}
+	nwide := 0
+	for _, fs := range sets {
+		if len(fs) == 0 || len(fs) > 2 {
+			continue
+		}
+		for _, inline := range []string{"none", "map", "omap", "struct"} {
+			t := c16build(fs, inline)
+			for _, n := range []int{9, 63, 64, 65, 129} {
+				for _, fillersFirst := range []bool{true, false} {
+					if !w.Take(fmt.Sprintf("wide|%s|%d|%v", t.descr, n, fillersFirst)) {
+						continue
+					}
+					st := map[string]int{}
+					var fill, own []string
+					for i := 0; i < n; i++ {
+						k := fmt.Sprintf("f%03d", i)
+						fill = append(fill, k)
+						st[k] = 2
+					}
+					for _, k := range c16keysOf(t) {
+						if strings.HasPrefix(k, "f0") || strings.HasPrefix(k, "f1") {
+							continue
+						}
+						own = append(own, k)
+						st[k] = 2 // first value
+					}
+					// aliases of a field whose primary key is present would be "second spellings": leave them out
+					for _, f := range t.fields {
+						for _, a := range f.aliases {
+							st[a] = 0
+						}
+					}
+					keys := append(append([]string{}, fill...), own...)
+					if !fillersFirst {
+						keys = append(append([]string{}, own...), fill...)
+					}
+					w.P.Evaluations++
+					w.P.Nontrivial++
+					nwide++
+					v := c16judgeDoc(t, keys, st, true)
+					if v.kind == "harness" {
+						w.HarnessError("%s", v.detail)
+						return
+					}
+					if v.kind != "" {
+						w.Violate(report.Violation{Kind: "wide-" + v.kind, Case: fmt.Sprintf("type %s, %d unknown keys (first=%v) + its own keys", t.descr, n, fillersFirst), Detail: clipStr(v.detail, 1200), Size: 40 + n/10})
+					}
+				}
+			}
+		}
+	}
+	w.Count("wide_documents", int64(nwide))
 	w.P.Bounds["max_fields"] = maxFields
 	w.P.Bounds["types"] = ntypes
 	_ = sort.Strings
@@ -712,10 +795,10 @@ func c16run(w *report.W) {
 func init() {
 	register(&report.Check{
 		ID: "C16",
-		Rule: "programs x inputs: every struct type built with reflect.StructOf from <=2 (quick) / <=3 (thorough) fields of an 18-field alphabet (string,int,bool,float64,[]string,[]int," +
-			"map[string]string,map[string]any,any,nested struct,pointer to struct,untagged,a tag with upper-case letters (plus its lower-case look-alike as an unknown key),yaml:\"-\",four alias-carrying fields two of which share a primary key with an alias-free or differently aliased field) x inline part in {none,map[string]any,*ordered.MapSA,struct}; " +
+		Rule: "programs x inputs: every struct type built with reflect.StructOf from <=2 (quick) / <=3 (thorough) fields of a 20-field alphabet (string,int,bool,float64,[]string,[]int," +
+			"map[string]string,map[string]any,any,nested struct,pointer to struct,*ordered.Map[string,struct],*ordered.Map[string,[]string],untagged,a tag with upper-case letters (plus its lower-case look-alike as an unknown key),yaml:\"-\",four alias-carrying fields two of which share a primary key with an alias-free or differently aliased field) x inline part in {none,map[string]any,*ordered.MapSA,struct}; " +
 			"for each type every document over its keys + aliases + an unknown key + the empty-string key (+ the inline struct's keys), each key absent / null / one of its 2-5 values, " +
-			"in forward and reversed key order, into a sentinel-prefilled and a zero destination; compared with the partition rule (field values, inline content and order) and, for alias-free " +
+			"in forward and reversed key order, into a sentinel-prefilled and a zero destination; plus, for the one- and two-field types, documents with 9 / 63 / 64 / 65 / 129 unknown keys in front of or behind the type's own keys; compared with the partition rule (field values, inline content and order) and, for alias-free " +
 			"well-typed cases, with yaml.v3's Node.Decode into the same reflect type. Non-trivial = at least one key present.",
 		Assumptions: []string{
 			"slices/maps that receive a value start nil: append/merge-into-existing semantics are not part of the statement",
